@@ -60,12 +60,11 @@ MANIFEST = {
             "documents with per-field defects, anchors/aliases/merge keys, YAML-in-YAML wrappers and byte/line mutations (CR/CRLF, tabs, "
             "non-UTF-8, truncation, token lines, pint comments).",
     "note": "Coq 8.16.1 kernel+VM, no axioms; hand models validated by differential execution on every run; crash/hang/renderability and the "
-            "line ranges built by individual checks are testing under timeout, labelled partial; four open known findings, each with a class "
-            "predicate, witness and (except the first) a tested candidate patch: C02-lone-cr (yaml.v3 counts lone CR / NEL / LS / PS as line "
-            "breaks: line numbers beyond the file), C02-yaml-error-after-eof (yaml syntax errors at the end of the input are reported on the "
-            "line after the last one) - these two are exactly where the hypothesis docs_fit / yerr of theorem (4) fails on real input - "
-            "C02-nested-alias-fanout (alias bomb inside a literal block scalar hangs relaxed mode) and C02-promql-paren-literal (panic in "
-            "utils/source.go on label_replace / count_values with a parenthesised string literal).",
+            "line ranges built by individual checks are testing under timeout, labelled partial; one open known finding: C02-lone-cr (yaml.v3 "
+            "counts a lone CR / NEL / LS / PS as a line break, pint does not: line numbers beyond the file - exactly the class where the "
+            "hypothesis docs_fit of theorem (4) fails on real input). Found by this check and fixed upstream since: implicit null after EOF "
+            "(5430596), JSON makeslice panic (5f804fb), alias fan-out hangs (2108dfa, 07824b1), yaml error line after EOF (07824b1), panic on "
+            "parenthesised PromQL string literals (53ade46).",
     "technique": "Coq theorems over Gallina parser/routing/position-lines/render models + forest, entry and Expand correspondence + "
                  "execution-based crash detector (in-process pipeline and real binary, four renderers)",
 }
